@@ -45,6 +45,7 @@ func init() {
 				out = append(out, Instance{Scenario: "c18_gates", Params: mustJSON(GateParams{Tier: tier, Part: i, Of: parts}), Bound: 0})
 			}
 			out = append(out, Instance{Scenario: "c18_restversion", Params: mustJSON(struct{}{}), Bound: 0, Note: "the version the client works with = what the parser makes of the string the cluster reports (19 renderings, well-formed and not)"})
+			out = append(out, Instance{Scenario: "c18_shrinkclose", Params: mustJSON(struct{}{}), Bound: 0, Note: "a rebalance that shrinks the assignment closes every stream the session had opened on either side of the 5.5.0 gate (the gate decides how, not which)"})
 			out = append(out, Instance{Scenario: "c18_serialclose", Params: mustJSON(struct{}{}), Bound: 0, Shards: 2, Note: "the serial-close gate observed at the wire through lifecycles (a re-opened vBucket) and configurations (slow answers, short connection time-out)"})
 			out = append(out, Instance{Scenario: "c18_connectfault", Params: mustJSON(struct{}{}), Bound: 0, Shards: 2, Note: "the first DCP connect fails: no session with features other than those the version gates"})
 			return out
@@ -326,6 +327,59 @@ func init() {
 				return []string{m}
 			}
 			return nil
+		}}
+	}
+}
+
+// c18_shrinkclose: the version gate decides HOW the streams of a session are closed, never WHICH: a rebalance that
+// shrinks this member's assignment (dynamic membership, 1/1 -> 1/2 of 4 vBuckets) closes every stream the
+// session had opened, on servers on either side of 5.5.0; afterwards exactly the new assignment is streamed.
+func init() {
+	scenarios["c18_shrinkclose"] = func(raw json.RawMessage) *vrt.Scenario {
+		return &vrt.Scenario{Name: "c18_shrinkclose", FreeChoices: true, NoTimerAlt: true, MaxSteps: 400000, Main: func() {
+			resetGlobals()
+			vs := [][4]int{{4, 6, 5, 0}, {5, 0, 1, 0}, {5, 4, 9, 0}, {5, 5, 0, 0}, {6, 5, 0, 0}, {7, 2, 0, 0}}
+			t := vs[vrt.Choose(len(vs), true, "version")]
+			to := [][2]int{{1, 2}, {2, 2}, {1, 4}}[vrt.Choose(3, true, "new-numbering")]
+			o := EnvOpts{Vbs: 4, CheckpointType: "manual", MembershipType: "dynamic", WrapMeta: true, Version: ver(t)}
+			c := NewCluster(&o)
+			for vb := uint16(0); vb < 4; vb++ {
+				c.Append(vb, marker(1, 1), symbolPacket("M", 1))
+			}
+			e := NewEnv(c, o)
+			e.Cons.AutoAck = true
+			publishInfo(e, 1, 1)
+			vrt.Sleep(1)
+			e.Stream.Open()
+			c.WaitIdle()
+			desc := fmt.Sprintf("server %v, member 1/1 of 4 vBuckets becomes %d/%d", t, to[0], to[1])
+			vrt.SetOutcome(desc)
+			n0 := len(c.Requests)
+			publishInfo(e, to[0], to[1])
+			vrt.Sleep(1)
+			e.Stream.Rebalance()
+			vrt.Sleep(5 * time.Second)
+			vrt.Quiesce()
+			c.WaitIdle()
+			closedReq := map[uint16]bool{}
+			for _, r := range c.Requests[n0:] {
+				if r.Kind == "closestream" {
+					closedReq[r.Vb] = true
+				}
+			}
+			for vb := uint16(0); vb < 4; vb++ {
+				if !closedReq[vb] {
+					vrt.Failf("%s: the stream of vb%d, opened by the first session, was never asked to close", desc, vb)
+				}
+			}
+			want := map[[2]int][2]uint16{{1, 2}: {0, 1}, {2, 2}: {2, 3}, {1, 4}: {0, 0}}[to]
+			for vb := uint16(0); vb < 4; vb++ {
+				in := vb >= want[0] && vb <= want[1]
+				if c.StreamOpen(vb) != in {
+					vrt.Failf("%s: after the rebalance vb%d streamed=%v, the new assignment is %d..%d", desc, vb, c.StreamOpen(vb), want[0], want[1])
+				}
+			}
+			e.Stream.Close(false)
 		}}
 	}
 }
